@@ -9,6 +9,7 @@ formatting("Enumerated.format_names", "Enumerated.format_root_indexes")
 
 @contract("Enumerated.encode", props=["C12", "C05", "C01"])
 def _(self, data: Val, encoder: Obj("Encoder")):
+    refines("Type.encode")
     # X.691 14: root values as a constrained index; additions as extension bit 1 + normally small number.
     # An unknown name is the library's encode error, never a KeyError (C12)
     requires(encoder.number_of_bits <= 3900)
@@ -84,6 +85,7 @@ def _(self, value: Nat) -> Nat:
 
 @contract("KnownMultiplierStringType.encode", props=["C05", "C01"], for_class="any")
 def _(self, data: Str, encoder: Obj("Encoder")):
+    refines("Type.encode")
     # X.691 30.5.6/30.5.7 (aligned variant): a fixed-size string is octet aligned iff aub * b > 16;
     # a variable-size string is preceded by its length (constrained whole number)
     requires(encoder.number_of_bits <= 3000)
@@ -108,7 +110,8 @@ def _(self, data: Str, encoder: Obj("Encoder")):
                    implies(self.minimum == self.maximum and self.maximum * self.bits_per_character <= 16,
                            encoder.number_of_bits == old(encoder.number_of_bits) + (1 if self.has_extension_marker else 0)
                            and encoder.value == old(encoder.value) * (2 if self.has_extension_marker else 1))])
-    loop(0, invariant=[encoder.number_of_bits <= 3100 + _i0 * self.bits_per_character or True])
+    loop(0, invariant=[encoder.chunks_number_of_bits + encoder.number_of_bits
+                       >= old(encoder.chunks_number_of_bits) + old(encoder.number_of_bits)])
 
 
 fields("Choice", additions_index_to_member=Opt(Map('int', Obj("Type"))), root_index_to_member=Map('int', Obj("Type")),
@@ -262,6 +265,7 @@ def _(self, minimum: IntOrMin, maximum: IntOrMax, has_extension_marker: Bool):
 
 @contract("Integer.encode", props=["C05", "C01", "C12"], label="aligned")
 def _(self, data: Int, encoder: Obj("Encoder")):
+    refines("Type.encode")
     # X.691 13 + 11.5.7 (aligned): root values of a range of at most 255 values: a bit field of blen(ub - lb) bits, no
     # alignment; 256 values: one aligned octet; up to 64K: two aligned octets.  Ranges above 64K (indefinite length
     # form) are not under contract here.
@@ -362,6 +366,7 @@ def _(self, decoder: Obj("Decoder")) -> Val:
 
 @contract("ArrayType.encode", props=["C05", "C01", "C12"], for_class="any")
 def _(self, data: ValSeq, encoder: Obj("Encoder")):
+    refines("Type.encode")
     # X.691 20: fixed size: just the elements; bounded size: the count as a constrained whole number (n - lb in
     # blen(ub - lb) bits for ranges up to 255), then the elements; outside an extensible root: bit 1 and a general length
     requires(encoder.number_of_bits <= 3000)
@@ -409,6 +414,7 @@ invariant("OctetString", implies(self.number_of_bits is not None,
 
 @contract("OctetString.encode", props=["C05", "C01"], label="aligned")
 def _(self, data: Bytes, encoder: Obj("Encoder")):
+    refines("Type.encode")
     # X.691 17 (aligned): a fixed size of at most two octets is a plain bit field; a larger fixed size is octet
     # aligned; a bounded size is the count as a constrained whole number, then the octet-aligned octets
     requires(encoder.number_of_bits <= 3000)
